@@ -628,12 +628,12 @@ Proof.
         -- apply Hcons. now right.
 Qed.
 
-Theorem same_bytes_two_names pushed layers :
+Theorem same_bytes_two_names inn pushed layers :
   NoDup (map fst layers) -> (forall n d, In (n, d) layers -> n <> []) ->
   incl pushed layers -> NoDup (map fst pushed) ->
   (forall n d, In (n, d) layers -> In d (map snd pushed)) ->
   forall n d, In (n, d) layers ->
-    name_lookup (s_names (copy_into false false pushed layers)) n = Some d.
+    name_lookup (s_names (copy_into false inn pushed layers)) n = Some d.
 Proof.
   intros Hnd Hne Hincl Hndp Hdg. unfold copy_into, fpush_manifest.
   rewrite (fpush_layers_fresh pushed fstore_empty Hndp) by reflexivity. simpl. rewrite !app_nil_r.
@@ -646,16 +646,16 @@ Qed.
 
 Theorem forcecas_no_restore inn pushed layers :
   copy_into true inn pushed layers = fpush_layers fstore_empty pushed.
-Proof. unfold copy_into, fpush_manifest. destruct inn; reflexivity. Qed.
+Proof. reflexivity. Qed.
 
-(* the current code under IgnoreNoName: the manifest is dropped before restoreDuplicates *)
+(* the code before the fix, under IgnoreNoName: the manifest was dropped before restoreDuplicates *)
 Theorem ignorenoname_refuted :
   exists pushed layers,
     NoDup (map fst layers) /\ (forall n d, In (n, d) layers -> n <> []) /\
     incl pushed layers /\ NoDup (map fst pushed) /\
     (forall n d, In (n, d) layers -> In d (map snd pushed)) /\
     exists n d, In (n, d) layers /\
-      name_lookup (s_names (copy_into false true pushed layers)) n = None.
+      name_lookup (s_names (copy_into_prefix false true pushed layers)) n = None.
 Proof.
   exists [(b "a", 1%nat)], [(b "a", 1%nat); (b "b", 1%nat)].
   split; [|split; [|split; [|split; [|split]]]].
